@@ -875,6 +875,26 @@ struct ZeroSizedFail {
     bad: FailingZst,
     n: u8,
 }
+/// a value whose Serialize goes through `collect_str` and whose Display fails (after writing
+/// `written` characters): the failure of the value's own impl is an error, not a panic
+struct FailingDisplay(usize);
+impl std::fmt::Display for FailingDisplay {
+    fn fmt(&self, f: &mut std::fmt::Formatter<'_>) -> std::fmt::Result {
+        f.write_str(&"x".repeat(self.0))?;
+        Err(std::fmt::Error)
+    }
+}
+impl Serialize for FailingDisplay {
+    fn serialize<S: Serializer>(&self, s: S) -> Result<S::Ok, S::Error> {
+        s.collect_str(self)
+    }
+}
+#[derive(Serialize)]
+struct HoldsFailingDisplay {
+    a: u8,
+    text: FailingDisplay,
+}
+
 /// a value whose Serialize goes through `collect_str` with a Display that writes several pieces
 struct Pieces(Vec<String>);
 impl std::fmt::Display for Pieces {
@@ -928,6 +948,15 @@ fn derived(acc: &mut Acc) {
     one("zero-sized-fields-in-variant", &ZeroSizedEnum::V { schema: Schema::V1, none: [], n: 1 }, false, acc);
     one("zero-sized-failing-field", &ZeroSizedFail { bad: FailingZst, n: 1 }, true, acc);
     one("zero-sized-in-tuple", &(Schema::V1, [0u8; 0], Empty {}, ()), false, acc);
+    one("failing-display", &FailingDisplay(0), true, acc);
+    one("failing-display-after-output", &FailingDisplay(100), true, acc);
+    one("failing-display-in-struct", &HoldsFailingDisplay { a: 1, text: FailingDisplay(3) }, true, acc);
+    one("failing-display-in-list", &vec![FailingDisplay(0)], true, acc);
+    {
+        let mut m = BTreeMap::new();
+        m.insert("k".to_string(), FailingDisplay(1));
+        one("failing-display-in-map", &m, true, acc);
+    }
     // Display-based impls that write their text in several pieces of every length around typical
     // buffer sizes (collect_str)
     for a in [0usize, 1, 5, 63, 64, 65, 100, 1000] {
